@@ -2,7 +2,7 @@
    the label-level specification (Spec.blocked_spec) for every list and every
    wire name (labels of arbitrary bytes, written as dns.UnpackDomainName writes
    them); label boundaries; root entries; reply shape. *)
-From Sdns Require Import Common.Base Gen.C18 C18.Model C18.Spec.
+From Sdns Require Import Common.Base Common.GoList Gen.C18 C18.Model C18.Spec.
 Open Scope N_scope.
 
 Lemma and_iff_both (A B C D : Prop) : (A <-> B) -> (C <-> D) -> (A /\ C <-> B /\ D).
@@ -34,8 +34,36 @@ Lemma gen_wild_prefix :
   set_wildp = [42; 46] /\ remove_wildp = [42; 46] /\ persist_wildp = [42; 46] /\
   set_wild_skip = 2 /\ remove_wild_skip = 2.
 Proof. repeat split; reflexivity. Qed.
-Lemma gen_persistable : persist_comment_char = 35 /\ persistable_comment_strs = [[35]].
-Proof. split; reflexivity. Qed.
+(* persistable is translated from the source (stage-3 translator, "ascii_strings":
+   strings.IndexFunc(s, unicode.IsSpace) as Common.GoList.go_index_space_ascii).  The
+   translation is exact for ASCII keys only — outside ASCII the library also finds the
+   multi-byte white space (U+0085, U+00A0, U+2000…) — hence the premise; as an equation
+   between the two Coq functions it holds for every octet list. *)
+Lemma is_space_ascii c : go_is_space_ascii c = is_space c.
+Proof.
+  unfold go_is_space_ascii, is_space. apply eq_true_iff_eq.
+  rewrite !orb_true_iff, andb_true_iff, !N.eqb_eq, !N.leb_le. lia.
+Qed.
+Lemma index_space_from_neg s : forall i, (0 <= i)%Z ->
+  (go_index_space_from s i <? 0)%Z = negb (existsb is_space s).
+Proof.
+  induction s as [|x r IH]; intros i Hi; cbn [go_index_space_from existsb]; [reflexivity|].
+  rewrite is_space_ascii. destruct (is_space x); cbn [orb negb].
+  - apply Z.ltb_ge. exact Hi.
+  - apply IH. lia.
+Qed.
+Lemma contains_byte s c : go_contains s [c] = existsb (fun x => x =? c) s.
+Proof.
+  induction s as [|x r IH]; [reflexivity|]. cbn [go_contains existsb]. rewrite IH. f_equal.
+  unfold go_has_prefix. cbn. now rewrite andb_true_r.
+Qed.
+Lemma gen_persistable (k : str) : Forall (fun c => c < 128) k -> go_persistable k = persistable k.
+Proof.
+  intros _. unfold go_persistable, go_index_space_ascii, persistable.
+  rewrite contains_byte, index_space_from_neg by lia. change persist_comment_char with 35.
+  induction k as [|c r IH]; [reflexivity|]. cbn [existsb forallb]. rewrite <- IH.
+  destruct (c =? 35), (is_space c), (existsb (fun x => x =? 35) r), (existsb is_space r); reflexivity.
+Qed.
 (* the names readBlocklists skips / loadInitial deletes are the ones CreateTemp makes *)
 Lemma gen_temp_prefix : hd [] local_temp_prefix_strs ++ [42] = hd [] persist_temp_strs.
 Proof. reflexivity. Qed.
